@@ -82,6 +82,37 @@ Fixpoint totals (rs : list resp) : N * N :=
 
 Fixpoint sum_n (l : list N) : N := match l with [] => 0 | x :: r => x + sum_n r end.
 
+(* ---- reservation schedule of BucketStore.Series (eager postings) ------------------ *)
+
+(* A block of the request = the series matched by the postings, in postings order, each
+   with its number of chunks in the requested time range (0 = none: the series is not
+   returned). blockSeriesClient.ExpandPostings reserves len(postings) series (nothing when
+   there are no postings); nextBatch reserves len(chkMetas) chunks for every series that
+   has chunks, unless the request skips chunks. All block clients share the two limiters. *)
+Definition series_reservations (blocks : list (list N)) : list N :=
+  filter (fun n => 0 <? n) (map (fun b => N.of_nat (length b)) blocks).
+
+Definition chunk_reservations (skip : bool) (blocks : list (list N)) : list N :=
+  if skip then [] else filter (fun k => 0 <? k) (concat blocks).
+
+(* the request succeeds iff no reservation fails; reservations only accumulate *)
+Definition store_ok (slimit climit : N) (skip : bool) (blocks : list (list N)) : bool :=
+  forallb (fun b => b) (reserves (new_limiter slimit) (series_reservations blocks)) &&
+  forallb (fun b => b) (reserves (new_limiter climit) (chunk_reservations skip blocks)).
+
+(* series / chunks a successful request sends before merging equal series of different blocks *)
+Definition returned_series (blocks : list (list N)) : N :=
+  N.of_nat (length (filter (fun k => 0 <? k) (concat blocks))).
+Definition returned_chunks (skip : bool) (blocks : list (list N)) : N :=
+  if skip then 0 else sum_n (concat blocks).
+
+Fixpoint insert_sorted (x : N) (l : list N) : list N :=
+  match l with
+  | [] => [x]
+  | y :: r => if x <=? y then x :: l else y :: insert_sorted x r
+  end.
+Definition sort_n (l : list N) : list N := fold_right insert_sorted [] l.
+
 (* ---- cases --------------------------------------------------------------------- *)
 
 Inductive case :=
@@ -89,13 +120,26 @@ Inductive case :=
 | CLimiter (limit : N) (nums : list N) (oks : list bool)
 (* NewLimitedStoreServer with the two limits around a store that sends [rs]:
    how many responses reached the client stream, and whether Series returned nil *)
-| CServer (slimit samples_limit : N) (rs : list resp) (forwarded : N) (ok : bool).
+| CServer (slimit samples_limit : N) (rs : list resp) (forwarded : N) (ok : bool)
+(* a real BucketStore.Series request over real blocks: the limits; SkipChunks; per selected
+   block the chunk counts of the matched series (ground truth read with the Prometheus index
+   reader); whether Series returned nil; whether the error was ResourceExhausted; the sorted
+   arguments of all Reserve calls on the series / chunks limiter; series and chunks received
+   by the client; distinct series and chunks the blocks hold for the request *)
+| CStore (slimit climit : N) (skip : bool) (blocks : list (list N)) (ok exhausted : bool)
+         (sres cres : list N) (nseries nchunks true_series true_chunks : N).
 
 Definition corr_ok (c : case) : bool :=
   match c with
   | CLimiter limit nums oks => list_eqb Bool.eqb (reserves (new_limiter limit) nums) oks
   | CServer sl cl rs fwd ok =>
     let '(n, fin) := stream (new_limiter sl) (new_limiter cl) rs in (n =? fwd) && Bool.eqb fin ok
+  | CStore sl cl skip blocks ok _ sres cres _ _ _ _ =>
+    Bool.eqb (store_ok sl cl skip blocks) ok &&
+    (* when the request ran to the end every reservation of the schedule was made, no other *)
+    (if ok then list_eqb N.eqb (sort_n (series_reservations blocks)) sres &&
+                list_eqb N.eqb (sort_n (chunk_reservations skip blocks)) cres
+     else true)
   end.
 
 (* prefix sums stay within the limit exactly while the calls succeed *)
@@ -124,4 +168,11 @@ Definition pred_ok (c : case) : bool :=
       Bool.eqb ok (within sl s_all && within cl (c_all * samples_per_chunk)) &&
       (if ok then fwd =? N.of_nat (length rs) else true)
     else true
+  | CStore sl cl skip blocks ok exhausted sres cres nseries nchunks tseries tchunks =>
+    if ok then
+      (* within the limits, and nothing missing *)
+      within sl nseries && within cl nchunks && (nseries =? tseries) && (nchunks =? tchunks)
+    else
+      (* refused with ResourceExhausted, and a limit really is exceeded by what the request needs *)
+      exhausted && negb (store_ok sl cl skip blocks)
   end.
